@@ -33,6 +33,71 @@ def setup_cirbo():
             sys.path.append(shim_dir)
     os.environ.setdefault('CIRBO_VERIF', '1')
     _setup_done = True
+    _install_cycle_guard()
+
+
+class HarnessCyclicCircuit(Exception):
+    """raised by the harness (not by cirbo) when an evaluation entry point is called on a cyclic netlist"""
+
+
+def _install_cycle_guard():
+    """cirbo's lazy evaluator does not terminate on a cyclic netlist.  A changed tree may hand the harness such a
+    circuit as a *result*; a check must then report it, not hang.  The outermost call of an evaluation entry point
+    first runs the harness's own cycle detection on the object (in this process only; results on acyclic circuits
+    are untouched)."""
+    try:
+        from cirbo.core.circuit import Circuit
+    except Exception:  # noqa: BLE001
+        return
+    depth = [0]
+
+    def cyclic(c, roots):
+        ops = {l: g.operands for l, g in c._gates.items()}
+        colour = {}
+        for root in roots:
+            if root in colour or root not in ops:
+                continue
+            stack = [(root, iter(ops[root]))]
+            colour[root] = 1
+            while stack:
+                node, it = stack[-1]
+                for o in it:
+                    if o not in ops:
+                        continue
+                    if colour.get(o) == 1:
+                        return True
+                    if o not in colour:
+                        colour[o] = 1
+                        stack.append((o, iter(ops[o])))
+                        break
+                else:
+                    colour[node] = 2
+                    stack.pop()
+        return False
+
+    def guard(fn):
+        def wrapped(self, *a, **k):
+            if depth[0] == 0:
+                # only a cycle the lazy evaluator would walk into: behind the outputs (or the gates asked for)
+                roots = list(self._outputs)
+                extra = k.get('outputs')
+                if extra is None and fn.__name__ == 'evaluate_circuit' and len(a) >= 2:
+                    extra = a[1]
+                if extra:
+                    roots += [x for x in extra if isinstance(x, str)]
+                if cyclic(self, roots):
+                    raise HarnessCyclicCircuit('evaluation of a circuit with a cycle behind the evaluated gates')
+            depth[0] += 1
+            try:
+                return fn(self, *a, **k)
+            finally:
+                depth[0] -= 1
+        wrapped.__name__ = getattr(fn, '__name__', 'wrapped')
+        wrapped.__doc__ = fn.__doc__
+        return wrapped
+    for name in ('evaluate_circuit', 'evaluate_circuit_outputs', 'evaluate', 'evaluate_at', 'get_truth_table'):
+        if hasattr(Circuit, name):
+            setattr(Circuit, name, guard(getattr(Circuit, name)))
 
 
 def seed_from_env(default=0):
